@@ -1,4 +1,6 @@
 import Uft.Model.DlRecord
+import Uft.Lemmas.Symtab
+import Uft.Lemmas.Session
 /- Helper lemmas for C10: the record-time dlopen model (clock, windows, report loop, invariant). -/
 namespace Uft.DlRecord
 open Uft.Symtab Uft.SymFile
@@ -40,7 +42,7 @@ theorem step_loaded (cfg : Cfg) (st : St) (ev : Ev) :
     ∀ o ∈ (step cfg st ev).loaded, o ∈ st.loaded ∨ o.born = st.now := by
   intro o ho
   cases ev with
-  | load n r b s e =>
+  | load n r b s e t =>
     simp only [step, List.mem_append, List.mem_singleton] at ho
     rcases ho with h | h
     · exact Or.inl h
@@ -169,7 +171,7 @@ theorem reportLoop_skip (cfg : Cfg) (hf : cfg.fixed = true) (win : Win) (h now s
       split
       · rfl
       · have hlt : idx + (subs - win.subsBefore) < win.nrBefore := by omega
-        simp [hf, hlt]
+        simp [hlt]
     simp only [reportLoop, this]
     exact ih (idx + 1) (by omega)
 
@@ -183,27 +185,43 @@ def initCovered (maps : List MMap) (a : Nat) : Bool :=
 def Dyn (im : List MMap) (o : Obj) : Prop :=
   o.name ≠ [] ∧ o.name ≠ vdsoName ∧ initCovered im o.start = false
 
-/-- a message for this object (load address and name) stamped no later than its mapping -/
+/-- the address lies in the object's text (`map->start <= addr < map->end`) -/
+def covers (o : Obj) (a : Nat) : Prop := o.start ≤ a ∧ a < o.stop
+
+def Overlap (x y : Obj) : Prop := x.start < y.stop ∧ y.start < x.stop
+
+/-- load bias below the first segment, non-empty text, inside the 64-bit address space; the
+    symbols of the table lie inside the text -/
+def Shape (o : Obj) : Prop :=
+  o.bias ≤ o.start ∧ o.start < o.stop ∧ o.stop < U64 ∧
+    ∀ x ∈ o.syms, o.start ≤ o.bias + x.addr ∧ o.bias + x.addr + x.size ≤ o.stop
+
+/-- a message sent for this very object, stamped no later than its mapping -/
 def Reported (msgs : List Msg) (o : Obj) : Prop :=
-  ∃ m ∈ msgs, m.bias = o.bias ∧ m.name = o.name ∧ m.time ≤ o.born
+  ∃ m ∈ msgs, m.obj = o ∧ m.time ≤ o.born
 
 theorem Reported.mono {msgs msgs' : List Msg} {o : Obj} (h : Reported msgs o)
     (hs : ∀ m ∈ msgs, m ∈ msgs') : Reported msgs' o := by
   obtain ⟨m, hm, h'⟩ := h
   exact ⟨m, hs m hm, h'⟩
 
-/-- what the loader and the program may do (hypotheses on a trace, evaluated along the run):
-    dlopen() calls in progress have distinct numbers; objects are mapped only inside a real
-    dlopen, at addresses that no loaded object's text covers; nothing is unloaded while a
-    dlopen() is in progress; an object that is unloaded by `dlclose(h)` was reported, if at
-    all, under the handle `h` -/
+theorem covers_overlap {x y : Obj} {a : Nat} (hx : covers x a) (hy : covers y a) : Overlap x y := by
+  unfold covers at hx hy; unfold Overlap; omega
+
+/-- what the loader, the clock and the program may do (hypotheses on a trace, evaluated along
+    the run):
+    * dlopen() calls in progress have distinct numbers, and the clock value a dlopen() reads is
+      larger than every value read before (by `mcount_entry` or by another dlopen());
+    * objects are mapped only inside a real dlopen, with a non-empty text inside the 64-bit
+      address space that no loaded object's text overlaps, and the symbols of their tables lie
+      inside the text;
+    * nothing is unloaded while a dlopen() is in progress. -/
 def EvOk (st : St) : Ev → Prop
-  | .enter w _ => ∀ x ∈ st.wins, x.id ≠ w
-  | .load _ _ _ s e =>
-    st.wins ≠ [] ∧ ∀ o ∈ st.loaded, ¬ (o.start ≤ s ∧ s < o.stop) ∧ ¬ (s ≤ o.start ∧ o.start < e)
-  | .close h gone =>
-    st.wins = [] ∧ ∀ o ∈ st.loaded, gone.contains o.start = true →
-      ∀ m ∈ st.maps, m.live = true → m.handle ≠ none → m.start = o.start → m.handle = some h
+  | .enter w _ => (∀ x ∈ st.wins, x.id ≠ w) ∧ st.lastRead < st.now
+  | .load _ _ b s e t =>
+    st.wins ≠ [] ∧ b ≤ s ∧ s < e ∧ e < U64 ∧ (∀ x ∈ t, s ≤ b + x.addr ∧ b + x.addr + x.size ≤ e) ∧
+      ∀ o ∈ st.loaded, ¬ (o.start ≤ s ∧ s < o.stop) ∧ ¬ (s ≤ o.start ∧ o.start < e)
+  | .close _ _ => st.wins = []
   | _ => True
 
 def Valid (cfg : Cfg) : St → List Ev → Prop
@@ -220,9 +238,35 @@ structure Inv (im : List MMap) (st : St) : Prop where
   live : ∀ m ∈ st.maps, m.handle ≠ none → m.live = true →
           ∃ o ∈ st.loaded, o.start = m.start ∧ o.stop = m.stop ∧ Reported st.msgs o
   phys : ∀ o ∈ st.loaded, ∀ o' ∈ st.loaded, o.start ≤ o'.start → o'.start < o.stop → o = o'
+  shape : ∀ o ∈ st.loaded, Shape o
+  shapem : ∀ m ∈ st.msgs, Shape m.obj
   recs : ∀ r ∈ st.recs, (∀ o ∈ r.objs, o.born ≤ r.time) ∧
           ∀ o ∈ r.objs, Dyn im o → Reported st.msgs o ∨ o ∈ st.loaded
   uniq : st.wins.Pairwise (fun a b => a.id ≠ b.id)
+  idl : ∀ o ∈ st.loaded, o.id < st.nloads
+  idm : ∀ m ∈ st.msgs, m.obj.id < st.nloads
+  idr : ∀ r ∈ st.recs, ∀ o ∈ r.objs, o.id < st.nloads
+  clock : st.lastRead ≤ st.now
+  clockr : ∀ r ∈ st.recs, r.time ≤ st.lastRead
+  clockm : ∀ m ∈ st.msgs, m.time ≤ st.lastRead
+  clockw : ∀ w ∈ st.wins, w.ts ≤ st.lastRead
+  msgok : ∀ m ∈ st.msgs, m.time ≤ m.obj.born ∧ m.bias = m.obj.bias ∧ m.name = m.obj.name
+  dead : ∀ m ∈ st.msgs, m.obj ∉ st.loaded → ∀ w ∈ st.wins, m.time < w.ts
+  deadr : ∀ r ∈ st.recs, ∀ o ∈ r.objs, o ∉ st.loaded → ∀ w ∈ st.wins, r.time < w.ts
+  order : ∀ m ∈ st.msgs, ∀ o ∈ st.loaded, Overlap m.obj o → m.obj = o ∨
+          ((∀ m' ∈ st.msgs, m'.obj = o → m.time < m'.time) ∧
+           ∀ w ∈ st.wins, o ∈ st.loaded.drop w.nrBefore → m.time < w.ts)
+  key : ∀ r ∈ st.recs, ∀ o ∈ r.objs, ∀ m ∈ st.msgs, ∀ mo ∈ st.msgs,
+          covers o r.addr → covers m.obj r.addr → mo.obj = o → mo.time ≤ m.time →
+          m.time ≤ r.time → m.obj = o
+
+theorem phys_overlap {l : List Obj}
+    (hp : ∀ o ∈ l, ∀ o' ∈ l, o.start ≤ o'.start → o'.start < o.stop → o = o')
+    {x y : Obj} (hx : x ∈ l) (hy : y ∈ l) (ho : Overlap x y) : x = y := by
+  unfold Overlap at ho
+  by_cases h : x.start ≤ y.start
+  · exact hp x hx y hy h ho.2
+  · exact (hp y hy x hx (by omega) ho.1).symm
 
 theorem initCovered_cons_dyn (m : MMap) (maps : List MMap) (a : Nat) (h : m.handle ≠ none) :
     initCovered (m :: maps) a = initCovered maps a := by
@@ -231,34 +275,46 @@ theorem initCovered_cons_dyn (m : MMap) (maps : List MMap) (a : Nat) (h : m.hand
   | none => exact absurd hh h
   | some x => simp [hh]
 
-theorem initCovered_markClosed (h : Nat) (maps : List MMap) (a : Nat) :
-    initCovered (markClosed true h maps) a = initCovered maps a := by
+theorem initCovered_markGone (l : List Obj) (maps : List MMap) (a : Nat) :
+    initCovered (markGone l maps) a = initCovered maps a := by
   induction maps with
   | nil => rfl
   | cons m r ih =>
     unfold initCovered at ih ⊢
-    simp only [markClosed]
+    simp only [markGone, List.map_cons, List.any_cons] at ih ⊢
+    rw [ih]
+    congr 1
     split
     · rename_i hc
-      simp only [if_true, List.any_cons, ih, hc.2, Option.isNone_some, Bool.false_and]
-    · simp only [List.any_cons, ih]
+      simp only [Bool.and_eq_true] at hc
+      have : m.handle.isNone = false := by
+        cases hh : m.handle with
+        | none => simp [hh] at hc
+        | some _ => rfl
+      simp [this]
+    · rfl
 
-theorem mem_markClosed (h : Nat) (maps : List MMap) (m : MMap)
-    (hm : m ∈ markClosed true h maps) (hl : m.live = true) : m ∈ maps ∧ m.handle ≠ some h := by
-  induction maps with
-  | nil => simp [markClosed] at hm
-  | cons x r ih =>
-    simp only [markClosed] at hm
-    split at hm
-    · simp only [if_true] at hm
-      rcases List.mem_cons.mp hm with e | e
-      · rw [e] at hl; simp at hl
-      · exact ⟨by simp [(ih e).1], (ih e).2⟩
-    · rename_i hc
-      rcases List.mem_cons.mp hm with e | e
-      · subst e
-        exact ⟨by simp, fun hh => hc ⟨hl, hh⟩⟩
-      · exact ⟨by simp [(ih e).1], (ih e).2⟩
+theorem mem_markGone (l : List Obj) (maps : List MMap) (m : MMap)
+    (hm : m ∈ markGone l maps) (hl : m.live = true) (hh : m.handle ≠ none) :
+    m ∈ maps ∧ ∃ o ∈ l, o.start = m.start := by
+  unfold markGone at hm
+  obtain ⟨x, hx, hxm⟩ := List.mem_map.mp hm
+  split at hxm
+  · subst hxm; simp at hl
+  · rename_i hc
+    subst hxm
+    refine ⟨hx, ?_⟩
+    have hs : x.handle.isSome = true := by
+      cases hx' : x.handle with
+      | none => exact absurd hx' hh
+      | some _ => rfl
+    simp only [hl, hs, Bool.true_and, Bool.not_eq_true', Bool.not_eq_false] at hc
+    have hc' : (l.any fun o => o.start == x.start) = true := by
+      cases h : (l.any fun o => o.start == x.start) with
+      | true => rfl
+      | false => simp [h] at hc
+    obtain ⟨o, ho, he⟩ := List.any_eq_true.mp hc'
+    exact ⟨o, ho, by simpa using he⟩
 
 /-- the loop over the objects appended since the timestamp was taken -/
 theorem reportLoop_post (cfg : Cfg) (hf : cfg.fixed = true) (hs : cfg.stampAtSend = false)
@@ -286,7 +342,7 @@ theorem reportLoop_post (cfg : Cfg) (hf : cfg.fixed = true) (hs : cfg.stampAtSen
     · -- reported
       rename_i hrep
       have hrepo : Reported (msgs ++ [mkMsg cfg win now o]) o :=
-        ⟨mkMsg cfg win now o, by simp, rfl, rfl, by simp [mkMsg, hs, hborn o (by simp)]⟩
+        ⟨mkMsg cfg win now o, by simp, rfl, by simp [mkMsg, hs, hborn o (by simp)]⟩
       have := ih (idx + 1) (mkMap h o :: maps) (msgs ++ [mkMsg cfg win now o]) (by omega)
         (fun x hx => hsub x (by simp [hx])) (fun x hx => hborn x (by simp [hx]))
         (fun a => by rw [initCovered_cons_dyn _ _ _ (by simp [mkMap])]; exact hinit a)
@@ -351,24 +407,72 @@ theorem reportLoop_post (cfg : Cfg) (hf : cfg.fixed = true) (hs : cfg.stampAtSen
 theorem mem_drop_append_singleton {α : Type} (l : List α) (x : α) (n : Nat) (h : n ≤ l.length) :
     (l ++ [x]).drop n = l.drop n ++ [x] := List.drop_append_of_le_length h
 
+/-- two windows of a duplicate-free list with the same number are the same window -/
+theorem win_eq_of_id {wins : List Win} (hu : wins.Pairwise (fun a b => a.id ≠ b.id))
+    {x y : Win} (hx : x ∈ wins) (hy : y ∈ wins) (he : x.id = y.id) : x = y := by
+  apply Classical.byContradiction
+  intro hne
+  obtain ⟨i, hi, ei⟩ := List.mem_iff_getElem.mp hx
+  obtain ⟨j, hj, ej⟩ := List.mem_iff_getElem.mp hy
+  have hpw' := List.pairwise_iff_getElem.mp hu
+  by_cases hij : i < j
+  · have := hpw' i j hi hj hij; rw [ei, ej] at this; exact this he
+  · by_cases hji : j < i
+    · have := hpw' j i hj hi hji; rw [ei, ej] at this; exact this he.symm
+    · have : i = j := by omega
+      subst this; rw [ei] at ej; exact hne ej
+
 theorem inv_step (im : List MMap) (cfg : Cfg) (hf : cfg.fixed = true) (hs : cfg.stampAtSend = false)
     (st : St) (ev : Ev) (hinv : Inv im st) (hok : EvOk st ev) : Inv im (step cfg st ev) := by
   cases ev with
   | tick dt =>
     exact { hinv with
       bornle := fun o ho => Nat.le_trans (hinv.bornle o ho) (Nat.le_add_right _ _)
-      win := fun w hw => ⟨Nat.le_trans (hinv.win w hw).1 (Nat.le_add_right _ _), (hinv.win w hw).2⟩ }
+      win := fun w hw => ⟨Nat.le_trans (hinv.win w hw).1 (Nat.le_add_right _ _), (hinv.win w hw).2⟩
+      clock := Nat.le_trans hinv.clock (Nat.le_add_right _ _) }
   | call a =>
-    refine { hinv with recs := ?_ }
-    intro r hr
-    simp only [step, List.mem_append, List.mem_singleton] at hr
-    rcases hr with h | h
-    · exact hinv.recs r h
-    · subst h
-      exact ⟨fun o ho => hinv.bornle o ho, fun o ho _ => Or.inr ho⟩
+    refine { hinv with recs := ?_, idr := ?_, clock := ?_, clockr := ?_, clockm := ?_, clockw := ?_,
+                       deadr := ?_, key := ?_ }
+    · intro r hr
+      simp only [step, List.mem_append, List.mem_singleton] at hr
+      rcases hr with h | h
+      · exact hinv.recs r h
+      · subst h
+        exact ⟨fun o ho => hinv.bornle o ho, fun o ho _ => Or.inr ho⟩
+    · intro r hr o ho
+      simp only [step, List.mem_append, List.mem_singleton] at hr
+      rcases hr with h | h
+      · exact hinv.idr r h o ho
+      · subst h; exact hinv.idl o ho
+    · exact Nat.le_refl _
+    · intro r hr
+      simp only [step, List.mem_append, List.mem_singleton] at hr
+      rcases hr with h | h
+      · exact Nat.le_trans (hinv.clockr r h) hinv.clock
+      · subst h; exact Nat.le_refl _
+    · intro m hm
+      exact Nat.le_trans (hinv.clockm m hm) hinv.clock
+    · intro w hw
+      exact Nat.le_trans (hinv.clockw w hw) hinv.clock
+    · intro r hr o ho hno
+      simp only [step, List.mem_append, List.mem_singleton] at hr
+      rcases hr with h | h
+      · exact hinv.deadr r h o ho hno
+      · subst h; exact absurd ho hno
+    · intro r hr o ho m hm mo hmo hco hcm hmo' hle hlt
+      simp only [step, List.mem_append, List.mem_singleton] at hr
+      rcases hr with h | h
+      · exact hinv.key r h o ho m hm mo hmo hco hcm hmo' hle hlt
+      · subst h
+        rcases hinv.order m hm o ho (covers_overlap hcm hco) with e | ⟨e, _⟩
+        · exact e
+        · have := e mo hmo hmo'
+          omega
   | enter w f =>
     simp only [EvOk] at hok
-    refine { hinv with win := ?_, obj := ?_, uniq := ?_ }
+    obtain ⟨hok, hclk⟩ := hok
+    refine { hinv with win := ?_, obj := ?_, uniq := ?_, clock := ?_, clockr := ?_, clockm := ?_,
+                       clockw := ?_, dead := ?_, deadr := ?_, order := ?_ }
     · intro x hx
       simp only [step, List.mem_cons] at hx
       rcases hx with e | e
@@ -383,11 +487,66 @@ theorem inv_step (im : List MMap) (cfg : Cfg) (hf : cfg.fixed = true) (hs : cfg.
       refine List.pairwise_cons.mpr ⟨?_, hinv.uniq⟩
       intro x hx
       exact fun e => hok x hx e.symm
-  | load n r b s e =>
+    · exact Nat.le_refl _
+    · intro r hr
+      have := hinv.clockr r hr
+      show r.time ≤ st.now
+      omega
+    · intro m hm
+      have := hinv.clockm m hm
+      show m.time ≤ st.now
+      omega
+    · intro x hx
+      simp only [step, List.mem_cons] at hx
+      rcases hx with e | e
+      · subst e; exact Nat.le_refl _
+      · have := hinv.clockw x e
+        show x.ts ≤ st.now
+        omega
+    · intro m hm hno x hx
+      simp only [step, List.mem_cons] at hx
+      rcases hx with e | e
+      · subst e
+        have := hinv.clockm m hm
+        show m.time < st.now
+        omega
+      · exact hinv.dead m hm hno x e
+    · intro r hr o ho hno x hx
+      simp only [step, List.mem_cons] at hx
+      rcases hx with e | e
+      · subst e
+        have := hinv.clockr r hr
+        show r.time < st.now
+        omega
+      · exact hinv.deadr r hr o ho hno x e
+    · intro m hm o ho hov
+      rcases hinv.order m hm o ho hov with e | ⟨e1, e2⟩
+      · exact Or.inl e
+      · refine Or.inr ⟨e1, ?_⟩
+        intro x hx hxo
+        simp only [step, List.mem_cons] at hx
+        rcases hx with e | e
+        · subst e
+          simp [step] at hxo
+        · exact e2 x e hxo
+  | load n r b s e t =>
     simp only [EvOk] at hok
-    obtain ⟨hne, hdis⟩ := hok
+    obtain ⟨hne, hbs, hse, heu, hsy, hdis⟩ := hok
     have hlen : ∀ w ∈ st.wins, w.nrBefore ≤ st.loaded.length := fun w hw => (hinv.win w hw).2.1
-    refine { hinv with bornle := ?_, win := ?_, obj := ?_, live := ?_, phys := ?_, recs := ?_ }
+    -- the new object
+    have hfresh : ∀ o ∈ st.loaded, o ≠ (⟨n, r, b, s, e, t, st.now, st.nloads⟩ : Obj) := by
+      intro o ho he
+      have := hinv.idl o ho
+      rw [he] at this
+      exact Nat.lt_irrefl _ this
+    have hfreshm : ∀ m ∈ st.msgs, m.obj ≠ (⟨n, r, b, s, e, t, st.now, st.nloads⟩ : Obj) := by
+      intro m hm he
+      have := hinv.idm m hm
+      rw [he] at this
+      exact Nat.lt_irrefl _ this
+    refine { hinv with bornle := ?_, win := ?_, obj := ?_, live := ?_, phys := ?_, shape := ?_,
+                       recs := ?_, idl := ?_, idm := ?_, idr := ?_, dead := ?_, deadr := ?_,
+                       order := ?_ }
     · intro o ho
       simp only [step, List.mem_append, List.mem_singleton] at ho
       rcases ho with h | h
@@ -433,55 +592,114 @@ theorem inv_step (im : List MMap) (cfg : Cfg) (hf : cfg.fixed = true) (hs : cfg.
       · subst a
         exact absurd ⟨h1, h2⟩ (hdis o' c).2
       · rw [a, c]
+    · intro o ho
+      simp only [step, List.mem_append, List.mem_singleton] at ho
+      rcases ho with h | h
+      · exact hinv.shape o h
+      · subst h; exact ⟨hbs, hse, heu, hsy⟩
     · intro r' hr'
       obtain ⟨h1, h2⟩ := hinv.recs r' hr'
       refine ⟨h1, fun o ho hd => ?_⟩
       rcases h2 o ho hd with h | h
       · exact Or.inl h
       · exact Or.inr (by simp [step, h])
+    · intro o ho
+      simp only [step, List.mem_append, List.mem_singleton] at ho
+      rcases ho with h | h
+      · exact Nat.lt_succ_of_lt (hinv.idl o h)
+      · subst h; exact Nat.lt_succ_self _
+    · intro m hm
+      exact Nat.lt_succ_of_lt (hinv.idm m hm)
+    · intro r' hr' o ho
+      exact Nat.lt_succ_of_lt (hinv.idr r' hr' o ho)
+    · intro m hm hno x hx
+      refine hinv.dead m hm (fun hin => hno ?_) x hx
+      simp [step, hin]
+    · intro r' hr' o ho hno x hx
+      refine hinv.deadr r' hr' o ho (fun hin => hno ?_) x hx
+      simp [step, hin]
+    · intro m hm o ho hov
+      simp only [step, List.mem_append, List.mem_singleton] at ho
+      rcases ho with h | h
+      · rcases hinv.order m hm o h hov with e' | ⟨e1, e2⟩
+        · exact Or.inl e'
+        · refine Or.inr ⟨e1, ?_⟩
+          intro x hx hxo
+          simp only [step] at hxo
+          rw [mem_drop_append_singleton _ _ _ (hlen x hx)] at hxo
+          rcases List.mem_append.mp hxo with h' | h'
+          · exact e2 x hx h'
+          · simp only [List.mem_singleton] at h'
+            exact absurd h' (hfresh o h)
+      · subst h
+        right
+        -- the object of `m` overlaps the new one, so it is not loaded any more
+        have hgone : m.obj ∉ st.loaded := by
+          intro hin
+          obtain ⟨d1, d2⟩ := hdis m.obj hin
+          unfold Overlap at hov
+          simp only at hov
+          by_cases hc : m.obj.start ≤ s
+          · exact d1 ⟨hc, hov.2⟩
+          · exact d2 ⟨by omega, hov.1⟩
+        refine ⟨fun m' hm' he' => absurd he' (hfreshm m' hm'), ?_⟩
+        intro x hx _
+        exact hinv.dead m hm hgone x hx
   | close h gone =>
     simp only [EvOk] at hok
-    obtain ⟨hw, hgone⟩ := hok
+    have hw := hok
     have hrep : ∀ o ∈ st.loaded, Dyn im o → Reported st.msgs o := by
       intro o ho hd
       rcases hinv.obj o ho hd with h' | ⟨x, hx, _⟩
       · exact h'
       · rw [hw] at hx; simp at hx
     have hfx : cfg.fixed = true := hf
-    constructor
+    have hsub : ∀ o, o ∈ (step cfg st (.close h gone)).loaded → o ∈ st.loaded := by
+      intro o ho
+      simp only [step] at ho
+      exact (List.mem_filter.mp ho).1
+    have hwins : (step cfg st (.close h gone)).wins = [] := by simp only [step]; exact hw
+    refine { hinv with initc := ?_, bornle := ?_, win := ?_, obj := ?_, live := ?_, phys := ?_,
+                       shape := ?_, recs := ?_, idl := ?_, dead := ?_, deadr := ?_, order := ?_ }
     · intro a
-      simp only [step, hfx]
-      rw [initCovered_markClosed]; exact hinv.initc a
+      simp only [step, hfx, if_true]
+      rw [initCovered_markGone]; exact hinv.initc a
     · intro o ho
-      simp only [step] at ho
-      exact hinv.bornle o (List.mem_filter.mp ho).1
+      exact hinv.bornle o (hsub o ho)
     · intro w hw'
-      simp only [step] at hw'
-      rw [hw] at hw'; simp at hw'
+      rw [hwins] at hw'; simp at hw'
     · intro o ho hd
-      simp only [step] at ho
-      exact Or.inl (hrep o (List.mem_filter.mp ho).1 hd)
+      exact Or.inl (hrep o (hsub o ho) hd)
     · intro m hm hh hl
-      simp only [step, hfx] at hm
-      obtain ⟨hm', hne⟩ := mem_markClosed h st.maps m hm hl
+      simp only [step, hfx, if_true] at hm
+      obtain ⟨hm', o', ho', hs'⟩ := mem_markGone _ st.maps m hm hl hh
       obtain ⟨o, ho, h1, h2, h3⟩ := hinv.live m hm' hh hl
-      refine ⟨o, ?_, h1, h2, h3⟩
-      simp only [step]
-      refine List.mem_filter.mpr ⟨ho, ?_⟩
-      cases hc : gone.contains o.start with
-      | false => rfl
-      | true => exact absurd (hgone o ho hc m hm' hl hh h1.symm) hne
+      have ho'l : o' ∈ st.loaded := (List.mem_filter.mp ho').1
+      have : o = o' := hinv.phys o ho o' ho'l (by omega) (by have := (hinv.shape o ho).2.1; omega)
+      subst this
+      exact ⟨o, ho', h1, h2, h3⟩
     · intro o ho o' ho' h1 h2
-      simp only [step] at ho ho'
-      exact hinv.phys o (List.mem_filter.mp ho).1 o' (List.mem_filter.mp ho').1 h1 h2
+      exact hinv.phys o (hsub o ho) o' (hsub o' ho') h1 h2
+    · intro o ho
+      exact hinv.shape o (hsub o ho)
     · intro r hr
-      simp only [step] at hr
       obtain ⟨h1, h2⟩ := hinv.recs r hr
       refine ⟨h1, fun o ho hd => ?_⟩
       rcases h2 o ho hd with h' | h'
       · exact Or.inl h'
       · exact Or.inl (hrep o h' hd)
-    · simp only [step]; exact hinv.uniq
+    · intro o ho
+      exact hinv.idl o (hsub o ho)
+    · intro m _ _ x hx
+      rw [hwins] at hx; simp at hx
+    · intro r _ o _ _ x hx
+      rw [hwins] at hx; simp at hx
+    · intro m hm o ho hov
+      rcases hinv.order m hm o (hsub o ho) hov with e | ⟨e1, _⟩
+      · exact Or.inl e
+      · refine Or.inr ⟨e1, ?_⟩
+        intro x hx
+        rw [hwins] at hx; simp at hx
   | leave w h =>
     simp only [step]
     cases hfw : findWin st.wins w with
@@ -510,34 +728,42 @@ theorem inv_step (im : List MMap) (cfg : Cfg) (hf : cfg.fixed = true) (hs : cfg.
         (st.loaded.drop win.nrBefore) win.nrBefore st.maps st.msgs (Nat.le_refl _)
         (fun o ho => List.mem_of_mem_drop ho) wborn hinv.initc hinv.live
       obtain ⟨p1, p2, p3, p4⟩ := post
+      -- the messages sent by this call
+      obtain ⟨new, hnew, hnewp⟩ := reportLoop_msgs cfg win h st.now st.subs
+        (st.loaded.drop win.nrBefore) win.nrBefore st.maps st.msgs
+      have hN : ∀ m ∈ new, m.obj ∈ st.loaded.drop win.nrBefore ∧ m.time = win.ts ∧
+          m.bias = m.obj.bias ∧ m.name = m.obj.name := by
+        intro m hm
+        obtain ⟨o, ho, he⟩ := hnewp m hm
+        subst he
+        exact ⟨ho, by simp [mkMsg, hs], rfl, rfl⟩
+      have hNl : ∀ m ∈ new, m.obj ∈ st.loaded := fun m hm => List.mem_of_mem_drop (hN m hm).1
+      have hmem : ∀ m, m ∈ (reportLoop cfg win h st.now st.subs win.nrBefore
+          (st.loaded.drop win.nrBefore) st.maps st.msgs).2 ↔ m ∈ st.msgs ∨ m ∈ new := by
+        intro m; rw [hnew, List.mem_append]
+      have hwsub : ∀ x, x ∈ st.wins.filter (fun x => x.id != w) → x ∈ st.wins :=
+        fun x hx => (List.mem_filter.mp hx).1
       constructor
       · exact p1
       · exact hinv.bornle
       · intro x hx
-        exact hinv.win x (List.mem_filter.mp hx).1
+        exact hinv.win x (hwsub x hx)
       · intro o ho hd
         rcases hinv.obj o ho hd with h' | ⟨x, hx, hx'⟩
         · exact Or.inl (h'.mono p3)
         · by_cases hxe : x.id = w
           · -- the window that is closing: the object was in its part of the list
-            have : x = win := by
-              apply Classical.byContradiction
-              intro hne
-              have hpw := hinv.uniq
-              obtain ⟨i, hi, ei⟩ := List.mem_iff_getElem.mp hx
-              obtain ⟨j, hj, ej⟩ := List.mem_iff_getElem.mp hwin
-              have hpw' := List.pairwise_iff_getElem.mp hpw
-              by_cases hij : i < j
-              · have := hpw' i j hi hj hij; rw [ei, ej] at this; exact this (by rw [hxe, hid])
-              · by_cases hji : j < i
-                · have := hpw' j i hj hi hji; rw [ei, ej] at this; exact this (by rw [hxe, hid])
-                · have : i = j := by omega
-                  subst this; rw [ei] at ej; exact hne ej
+            have : x = win := win_eq_of_id hinv.uniq hx hwin (by rw [hxe, hid])
             subst this
             exact Or.inl (p4 o hx' hd)
           · exact Or.inr ⟨x, List.mem_filter.mpr ⟨hx, by simpa using hxe⟩, hx'⟩
       · exact p2
       · exact hinv.phys
+      · exact hinv.shape
+      · intro m hm
+        rcases (hmem m).mp hm with e | e
+        · exact hinv.shapem m e
+        · exact hinv.shape _ (hNl m e)
       · intro r hr
         obtain ⟨h1, h2⟩ := hinv.recs r hr
         refine ⟨h1, fun o ho hd => ?_⟩
@@ -545,6 +771,64 @@ theorem inv_step (im : List MMap) (cfg : Cfg) (hf : cfg.fixed = true) (hs : cfg.
         · exact Or.inl (h'.mono p3)
         · exact Or.inr h'
       · exact List.Pairwise.sublist List.filter_sublist hinv.uniq
+      · exact hinv.idl
+      · intro m hm
+        rcases (hmem m).mp hm with e | e
+        · exact hinv.idm m e
+        · exact hinv.idl _ (hNl m e)
+      · exact hinv.idr
+      · exact hinv.clock
+      · exact hinv.clockr
+      · intro m hm
+        rcases (hmem m).mp hm with e | e
+        · exact hinv.clockm m e
+        · rw [(hN m e).2.1]; exact hinv.clockw win hwin
+      · intro x hx
+        exact hinv.clockw x (hwsub x hx)
+      · intro m hm
+        rcases (hmem m).mp hm with e | e
+        · exact hinv.msgok m e
+        · obtain ⟨n1, n2, n3, n4⟩ := hN m e
+          exact ⟨by rw [n2]; exact wborn _ n1, n3, n4⟩
+      · intro m hm hno x hx
+        rcases (hmem m).mp hm with e | e
+        · exact hinv.dead m e hno x (hwsub x hx)
+        · exact absurd (hNl m e) hno
+      · intro r hr o ho hno x hx
+        exact hinv.deadr r hr o ho hno x (hwsub x hx)
+      · -- order
+        intro m hm o ho hov
+        rcases (hmem m).mp hm with e | e
+        · rcases hinv.order m e o ho hov with e' | ⟨e1, e2⟩
+          · exact Or.inl e'
+          · refine Or.inr ⟨?_, fun x hx hxo => e2 x (hwsub x hx) hxo⟩
+            intro m' hm' hm'o
+            rcases (hmem m').mp hm' with f | f
+            · exact e1 m' f hm'o
+            · obtain ⟨n1, n2, _, _⟩ := hN m' f
+              rw [n2]
+              rw [hm'o] at n1
+              exact e2 win hwin n1
+        · exact Or.inl (phys_overlap hinv.phys (hNl m e) ho hov)
+      · -- key
+        intro r hr o ho m hm mo hmo hco hcm hmo' hle hlt
+        rcases (hmem m).mp hm with e | e
+        · rcases (hmem mo).mp hmo with f | f
+          · exact hinv.key r hr o ho m e mo f hco hcm hmo' hle hlt
+          · -- the message for `o` is new: `o` is loaded, in the part of the closing window
+            obtain ⟨n1, n2, _, _⟩ := hN mo f
+            rw [hmo'] at n1
+            have hol : o ∈ st.loaded := List.mem_of_mem_drop n1
+            rcases hinv.order m e o hol (covers_overlap hcm hco) with e' | ⟨_, e2⟩
+            · exact e'
+            · have := e2 win hwin n1
+              omega
+        · -- `m` is new
+          obtain ⟨n1, n2, _, _⟩ := hN m e
+          by_cases hol : o ∈ st.loaded
+          · exact phys_overlap hinv.phys (hNl m e) hol (covers_overlap hcm hco)
+          · have := hinv.deadr r hr o ho hol win hwin
+            omega
 
 theorem inv_run (im : List MMap) (cfg : Cfg) (hf : cfg.fixed = true) (hs : cfg.stampAtSend = false)
     (st : St) (evs : List Ev) (hinv : Inv im st) (hv : Valid cfg st evs) :
@@ -559,9 +843,13 @@ structure Init (st : St) : Prop where
   maps : ∀ m ∈ st.maps, m.handle = none
   wins : st.wins = []
   recs : st.recs = []
+  msgs : st.msgs = []
   objs : ∀ o ∈ st.loaded, ¬ Dyn st.maps o
   born : ∀ o ∈ st.loaded, o.born ≤ st.now
   phys : ∀ o ∈ st.loaded, ∀ o' ∈ st.loaded, o.start ≤ o'.start → o'.start < o.stop → o = o'
+  shape : ∀ o ∈ st.loaded, Shape o
+  ids : ∀ o ∈ st.loaded, o.id < st.nloads
+  clock : st.lastRead ≤ st.now
 
 theorem inv_init (st : St) (h : Init st) : Inv st.maps st where
   initc := fun _ => rfl
@@ -570,7 +858,111 @@ theorem inv_init (st : St) (h : Init st) : Inv st.maps st where
   obj := fun o ho hd => absurd hd (h.objs o ho)
   live := fun m hm hh _ => absurd (h.maps m hm) hh
   phys := h.phys
+  shape := h.shape
+  shapem := by intro m hm; rw [h.msgs] at hm; simp at hm
   recs := by intro r hr; rw [h.recs] at hr; simp at hr
   uniq := by rw [h.wins]; exact List.Pairwise.nil
+  idl := h.ids
+  idm := by intro m hm; rw [h.msgs] at hm; simp at hm
+  idr := by intro r hr; rw [h.recs] at hr; simp at hr
+  clock := h.clock
+  clockr := by intro r hr; rw [h.recs] at hr; simp at hr
+  clockm := by intro m hm; rw [h.msgs] at hm; simp at hm
+  clockw := by intro w hw; rw [h.wins] at hw; simp at hw
+  msgok := by intro m hm; rw [h.msgs] at hm; simp at hm
+  dead := by intro m hm; rw [h.msgs] at hm; simp at hm
+  deadr := by intro r hr; rw [h.recs] at hr; simp at hr
+  order := by intro m hm; rw [h.msgs] at hm; simp at hm
+  key := by intro r hr; rw [h.recs] at hr; simp at hr
+
+/-! ### what the analysis side makes of the messages -/
+
+open Uft.Session in
+theorem mem_dlList_aux (msgs : List Msg) (init : List DlLib) (l : DlLib) :
+    l ∈ msgs.foldl (fun acc m => addDlopen acc (libOf m)) init ↔
+      l ∈ init ∨ ∃ m ∈ msgs, l = libOf m := by
+  induction msgs generalizing init with
+  | nil => simp
+  | cons m r ih =>
+    simp only [List.foldl_cons, ih, mem_addDlopen, List.mem_cons]
+    constructor
+    · rintro ((h | h) | ⟨m', hm', e⟩)
+      · exact Or.inr ⟨m, Or.inl rfl, h⟩
+      · exact Or.inl h
+      · exact Or.inr ⟨m', Or.inr hm', e⟩
+    · rintro (h | ⟨m', hm' | hm', e⟩)
+      · exact Or.inl (Or.inr h)
+      · subst hm'; exact Or.inl (Or.inl e)
+      · exact Or.inr ⟨m', hm', e⟩
+
+theorem mem_dlList (msgs : List Msg) (l : Uft.Session.DlLib) :
+    l ∈ dlList msgs ↔ ∃ m ∈ msgs, l = libOf m := by
+  unfold dlList
+  rw [mem_dlList_aux]
+  simp
+
+open Uft.Session in
+theorem dlList_sorted_aux (msgs : List Msg) (init : List DlLib)
+    (h : init.Pairwise (fun a b => a.time ≤ b.time)) :
+    (msgs.foldl (fun acc m => addDlopen acc (libOf m)) init).Pairwise (fun a b => a.time ≤ b.time) := by
+  induction msgs generalizing init with
+  | nil => exact h
+  | cons m r ih => exact ih _ (addDlopen_sorted init (libOf m) h)
+
+theorem dlList_sorted (msgs : List Msg) :
+    (dlList msgs).Pairwise (fun a b => a.time ≤ b.time) :=
+  dlList_sorted_aux msgs [] List.Pairwise.nil
+
+theorem sub64_of_le (a b : Nat) (hb : b ≤ a) (ha : a < U64) : Uft.Session.sub64 a b = a - b := by
+  have hU : U64 = 18446744073709551616 := rfl
+  unfold Uft.Session.sub64
+  rw [Nat.mod_eq_of_lt (by omega : b < U64)]
+  have : a + U64 - b = (a - b) + U64 := by omega
+  rw [this, Nat.add_mod_right, Nat.mod_eq_of_lt (by omega)]
+
+/-- a symbol that the table of a message yields for `addr - base` (64-bit) lies in the text of the
+    message's object -/
+theorem libOf_find_covers (m : Msg) (a : Nat) (hsh : Shape m.obj) (hb : m.bias = m.obj.bias)
+    (ha : a < U64) (s : Sym)
+    (hs : findSym (libOf m).syms (Uft.Session.sub64 a (libOf m).base) = some s) :
+    covers m.obj a := by
+  obtain ⟨h1, h2, h3, h4⟩ := hsh
+  have hU : U64 = 18446744073709551616 := rfl
+  obtain ⟨hbs, _⟩ := dropSymEnd_some hs
+  obtain ⟨hm, hc⟩ := bsearch_some _ _ _ hbs
+  have hc' := (addrfind_zero_iff _ s).mp hc
+  simp only [libOf] at hm hc'
+  obtain ⟨i1, i2⟩ := h4 s hm
+  have hstop : s.stop = s.addr + s.size := by
+    unfold Sym.stop; exact Nat.mod_eq_of_lt (by omega)
+  unfold Sym.contains at hc'
+  rw [hstop, hb] at hc'
+  unfold covers
+  by_cases hab : m.obj.bias ≤ a
+  · rw [sub64_of_le a _ hab ha] at hc'
+    omega
+  · exfalso
+    unfold Uft.Session.sub64 at hc'
+    rw [Nat.mod_eq_of_lt (by omega : m.obj.bias < U64),
+      Nat.mod_eq_of_lt (by omega : a + U64 - m.obj.bias < U64)] at hc'
+    omega
+
+/-! ### the hypotheses are decidable (used by the non-vacuity examples) -/
+
+instance (im : List MMap) (o : Obj) : Decidable (Dyn im o) := by unfold Dyn; infer_instance
+instance (o : Obj) (a : Nat) : Decidable (covers o a) := by unfold covers; infer_instance
+instance (o : Obj) : Decidable (Shape o) := by unfold Shape; infer_instance
+instance (st : St) (ev : Ev) : Decidable (EvOk st ev) := by
+  cases ev <;> unfold EvOk <;> infer_instance
+
+def validDec (cfg : Cfg) : (st : St) → (evs : List Ev) → Decidable (Valid cfg st evs)
+  | _, [] => isTrue trivial
+  | st, ev :: r =>
+    match (inferInstance : Decidable (EvOk st ev)), validDec cfg (step cfg st ev) r with
+    | isTrue h1, isTrue h2 => isTrue ⟨h1, h2⟩
+    | isFalse h1, _ => isFalse (fun h => h1 h.1)
+    | _, isFalse h2 => isFalse (fun h => h2 h.2)
+
+instance (cfg : Cfg) (st : St) (evs : List Ev) : Decidable (Valid cfg st evs) := validDec cfg st evs
 
 end Uft.DlRecord
